@@ -15,11 +15,18 @@ Definition bind {A B} (r : res A) (f : A -> res B) : res B := match r with Ok a 
 Notation "'do' x <- r ; k" := (bind r (fun x => k)) (at level 200, x pattern, r at level 100, k at level 200).
 
 (* unit strings seen by _extract_and_validate_units *)
-Inductive utok := UTdeg | UTdegrees | UTm | UTmeters | UTmetres | UTkm | UTbaddeg (* contains "deg", e.g. "degree" *).
+Inductive utok := UTdeg | UTdegrees | UTm | UTmeters | UTmetres | UTkm | UTbaddeg (* contains "deg", e.g. "degree" *)
+              | UTcrs (* the unit name of a projected CRS that is neither metre nor kilometre, e.g. "US survey foot" *).
 (* canonical units after _extract_and_validate_units; also the range of _get_proj_units for the CRS pool *)
-Inductive cu := Cdeg | Cm | Ckm.
+Inductive cu := Cdeg | Cm | Ckm | Cother.
 Definition cu_eqb (a b : cu) : bool :=
-  match a, b with Cdeg, Cdeg | Cm, Cm | Ckm, Ckm => true | _, _ => false end.
+  match a, b with Cdeg, Cdeg | Cm, Cm | Ckm, Ckm | Cother, Cother => true | _, _ => false end.
+(* _get_proj_units: 'degrees' for a geographic CRS, else crs.axis_info[0].unit_name with the metre / kilometre
+   spellings mapped to 'm' / 'km' and every other name kept as it is *)
+Inductive uname := UNmetre | UNmeter | UNkilometre | UNkilometer | UNother.
+Definition get_proj_units (geographic : bool) (n : uname) : cu :=
+  if geographic then Cdeg else
+  match n with UNmetre | UNmeter => Cm | UNkilometre | UNkilometer => Ckm | UNother => Cother end.
 (* parameter names that _convert_units distinguishes *)
 Inductive pname := Ncenter | Nul | Nextent | Nradius | Nresolution.
 Definition is_dist (n : pname) : bool := match n with Nradius | Nresolution => true | _ => false end.
@@ -97,17 +104,19 @@ Section AreaConfig.
            match u with
            | UTbaddeg => Err
            | UTkm => Ok Ckm
+           | UTcrs => Ok Cother
            | _ => Ok Cm
            end
     end.
   Definition default_units (crs_units : cu) : utok :=
-    match crs_units with Cdeg => UTdegrees | Cm => UTm | Ckm => UTkm end.
+    match crs_units with Cdeg => UTdegrees | Cm => UTm | Ckm => UTkm | Cother => UTcrs end.
 
   (* oracles: Proj(crs)(x, y, errcheck=True), its inverse, and the factor PROJ's unitconvert applies
      when going from the given canonical unit to the CRS unit.  None = ProjError. *)
   Variable pfwd : P2 -> option P2.
   Variable pinv : P2 -> option P2.
-  Variable fac : cu -> T.
+  (* PROJ converts through metres: at most two unitconvert steps, e.g. km -> m -> us-ft; a missing step is the factor 1 *)
+  Variable fac : cu -> T * T.
   Variable geographic : bool.
   Variable crs_units : cu.
 
@@ -117,7 +126,8 @@ Section AreaConfig.
 
   (* _convert_coordinate_for_metered_units *)
   Definition convert_metered (var : P2) (u : cu) : P2 :=
-    if cu_eqb crs_units u then var else (mul OP (fst var) (fac u), mul OP (snd var) (fac u)).
+    if cu_eqb crs_units u then var
+    else (mul OP (mul OP (fst var) (fst (fac u))) (snd (fac u)), mul OP (mul OP (snd var) (fst (fac u))) (snd (fac u))).
 
   (* _round_poles *)
   Definition round_poles (center : P2) (is_angle : bool) : res P2 :=
